@@ -40,6 +40,9 @@ def witnesses(isa):
     w["secwrap_code_4g.nvm"] = one_section(T_CODE, 44, (1 << 32) - 44 + 1)
     h = bytearray(b"NVM\x01") + struct.pack("<IIIIIII", 1, 0, 0, 2, 0, 0, 0)
     w["secwrap_code_4g_then_refused.nvm"] = bytes(fix_crc(h + struct.pack("<IIIIII", T_CODE, 56, (1 << 32) - 56 + 1, T_DBG, 0xFFFF, 1)))
+    # a second CODE section whose size makes code_size + size wrap: no reallocation, 4 GiB memcpy
+    h = bytearray(b"NVM\x01") + struct.pack("<IIIIIII", 1, 0, 0, 2, 0, 0, 0)
+    w["secwrap_code_second.nvm"] = bytes(fix_crc(h + struct.pack("<IIIIII", T_CODE, 56, 16, T_CODE, 56, 0xFFFFFFF0) + b"\0" * 16))
     # string pool: pos + slen wraps
     w["strlen_wrap.nvm"] = one_section(T_STR, 44, 4, struct.pack("<I", 0xFFFFFFFC))
     # function table: code_offset + code_length wraps and passes verify_structure
